@@ -115,9 +115,10 @@ void vs_enter(void);
 void vs_leave(void);
 int vs_inside(void);
 
-// Fail the n-th (0-based) parent-side call of function `fn` from now on with
-// ENOMEM (allocation functions only: realloc).
+// Fail the n-th (0-based) parent-side call of function `fn` from now on:
+// realloc with ENOMEM; poll, waitpid, read and write with EINTR. (-1, -1) disarms.
 void vs_fail_nth(int fn, int n);
+unsigned vs_nth_fired(void);  // how many such failures have been delivered so far
 void vs_add_fault(struct vs_fault f);
 void vs_clear_faults(void);
 
